@@ -267,6 +267,19 @@ static carquet_status_t add_column_internal(
     return CARQUET_OK;
 }
 
+/* True if some group below the root has children, i.e. some leaf is not a
+ * direct child of the root. (The schema builder only creates childless
+ * groups, which the writer ignores.) */
+static bool schema_has_nested_leaves(const carquet_schema_t* schema) {
+    for (int32_t i = 1; i < schema->num_elements; i++) {
+        const parquet_schema_element_t* elem = &schema->elements[i];
+        if (!elem->has_type && elem->num_children > 0) {
+            return true;
+        }
+    }
+    return false;
+}
+
 static carquet_status_t ensure_row_group(carquet_writer_t* writer) {
     if (writer->current_row_group) {
         return CARQUET_OK;
@@ -565,6 +578,18 @@ carquet_writer_t* carquet_writer_create(
         carquet_writer_options_init(&writer->options);
     }
 
+    /* Only flat tables can be written: every column is declared as a direct
+     * child of the root, with the levels that follow from its own repetition.
+     * A schema with leaves inside groups (for example the schema of a nested
+     * file) would be flattened silently - wrong levels in the file, and value
+     * arrays read by level count instead of value count. */
+    if (schema_has_nested_leaves(schema)) {
+        carquet_writer_abort(writer);
+        CARQUET_SET_ERROR(error, CARQUET_ERROR_NOT_IMPLEMENTED,
+            "Writing nested schemas (columns inside groups) is not supported");
+        return NULL;
+    }
+
     /* Add columns from schema (schema is nonnull per API contract) */
     for (int32_t i = 0; i < schema->num_leaves; i++) {
         int32_t elem_idx = schema->leaf_indices[i];
@@ -618,6 +643,18 @@ carquet_writer_t* carquet_writer_create_file(
         writer->options = *options;
     } else {
         carquet_writer_options_init(&writer->options);
+    }
+
+    /* Only flat tables can be written: every column is declared as a direct
+     * child of the root, with the levels that follow from its own repetition.
+     * A schema with leaves inside groups (for example the schema of a nested
+     * file) would be flattened silently - wrong levels in the file, and value
+     * arrays read by level count instead of value count. */
+    if (schema_has_nested_leaves(schema)) {
+        carquet_writer_abort(writer);
+        CARQUET_SET_ERROR(error, CARQUET_ERROR_NOT_IMPLEMENTED,
+            "Writing nested schemas (columns inside groups) is not supported");
+        return NULL;
     }
 
     /* Add columns from schema (schema is nonnull per API contract) */
